@@ -594,6 +594,32 @@ def run(ctx: Context, rep) -> None:
                        short(r.value, 30) for r in rets if r.value is not None),
                    message="a validator checks, it does not rewrite")
     rep.floor("C20.validators", n_val, 2, "validators")
+    # a validator pydantic does not register is no validator; a serializer
+    # rewrites what is persisted
+    for ci in model_classes(ctx).values():
+        for m in ci.methods.values():
+            if isinstance(m.node, ast.Lambda):
+                continue
+            names_ = [(dotted(d.func) if isinstance(d, ast.Call) else
+                       dotted(d)) or "" for d in m.node.decorator_list]
+            short_ = [x.rsplit(".", 1)[-1] for x in names_]
+            if any(x in ("field_validator", "model_validator", "validator")
+                   for x in short_):
+                rep.ob("C20.validators", short_[0] in (
+                    "field_validator", "model_validator", "validator"),
+                       loc=m.loc(), where=m.qualname,
+                       construct="decorators: " + ", ".join(
+                           "@" + x for x in short_),
+                       message="the pydantic validator decorator must be the "
+                       "outermost one (applied on top of @classmethod), "
+                       "otherwise the validator is silently not registered")
+            if any(x in ("field_serializer", "model_serializer")
+                   for x in short_):
+                rep.ob("C20.validators", False, loc=m.loc(), where=m.qualname,
+                       construct="@" + short_[0],
+                       message="a persisted model rewrites values while "
+                       "serialising: what is recorded differs from what the "
+                       "writer holds")
     # ... nor does the model configuration: pydantic options that transform
     # values while validating (frozen table) are off in persisted models
     TRANSFORMING = {"str_strip_whitespace", "str_to_lower", "str_to_upper",
